@@ -1,8 +1,9 @@
 (* Props/C13.v -- property C13, first sentence: a suspense boundary reports loading exactly while some task
    registered under it or under an enclosing boundary is unfinished, for every order in which tasks finish
-   (on Async/Suspense.v). The rendering half of C13 is decided by correspondence and oracle only. *)
+   (on Async/Suspense.v). The rendering half of C13 is stated in Props/C13r.v (re-exported here). *)
 From Coq Require Import List Arith Bool.
 From Syc Require Import Async.Suspense Async.SuspenseFacts Async.CounterFacts.
+From Syc Require Export Props.C13r.   (* the rendering half: blocking / streaming *)
 Import ListNotations.
 
 (* in every state reached from a program by any schedule (any order of task steps, any disposals) *)
